@@ -76,7 +76,19 @@ def occ_spec(rng, dsl, cap, n_gram):
     funs = [p for p in dsl["prims"] if p[1][0] == 1]
     rng.shuffle(funs)
     for f in funs[:3]:
-        d = make_finite(dsl, f[0])
+        src = dsl
+        if rng.random() < 0.4:
+            # a second instance of the bounded primitive under the same name (as after
+            # instantiate_polymorphic_types): occurrences are counted by name
+            args, r = D.arrow_parts(f[1])
+            bases = [b for b in D.BASES if any(pt == b for _, pt in dsl["prims"])]
+            if bases:
+                args2 = list(args)
+                args2[rng.randrange(len(args2))] = rng.choice(bases)
+                variant = [f[0], S.ARROW(*args2, r)]
+                if variant[1] != f[1]:
+                    src = dict(dsl, prims=dsl["prims"] + [variant])
+        d = make_finite(src, f[0])
         if d is None or not any(p[0] == f[0] for p in d["prims"]):
             continue
         ks = [k for k in range(0, 4) if (D.count_occ(d, ret, f[0], k) or cap + 1) <= cap]
